@@ -202,7 +202,7 @@ func (c *c17Case) run() error {
 	go func() { served <- srv.ListenAndServe() }()
 	defer func() {
 		for i := 0; i < 200; i++ {
-			if err := srv.Close(); err == nil || err.Error() != "server not listening" {
+			if err := srv.Close(); !notServingYet(err) {
 				break
 			}
 			time.Sleep(time.Millisecond)
